@@ -19,7 +19,7 @@ try:
     def bad(evf):
         try: ev = json.load(open(evf))
         except Exception: return {'<no evidence>': 'x'}
-        return {o['key']: o.get('witness', '')[:220] for o in ev['coverage'].get('samples', []) if o['status'] != 'discharged'}
+        return {o['key']: o.get('witness', '')[:220] for o in ev['coverage'].get('samples', []) if o['status'] != 'discharged' and not o.get('known_finding')}
     os.makedirs(scratch + '_verif/evidence', exist_ok=True)
     os.makedirs('/tmp/seed/base_verif/evidence', exist_ok=True)
     shutil.copy('/verif/known_findings.json', scratch + '_verif/known_findings.json')
